@@ -33,6 +33,25 @@ def make_image(B, work, comp):
     return img
 
 
+def hostile_data_image(work):
+    """Damaged image for the data reader: a fragment block much shorter than a block with a file that points far into it, and a full size
+    file whose only block is stored with 16 bytes.  The original answers from its zero padded block-size buffers; a copy must do the same."""
+    from . import sqfsimg
+    t = {b"": Node("dir", 0o755), b"good": Node("file", 0o644, data=[("bytes", b"0123456789abcdef")]),
+         b"evil": Node("file", 0o644, data=[("rand", 3, 255)]), b"short": Node("file", 0o644, data=[("rand", 4, 4096)]),
+         b"plain": Node("file", 0o644, data=[("rand", 5, 5000)])}
+    img, fmap, info = sqfsimg.build_image(t)
+    f = {n: (o, sz) for n, o, sz in fmap.fields}
+    img = sqfsimg.patch(img, f["inode[evil].frag_off"][0], f["inode[evil].frag_off"][1], 3000)
+    img = sqfsimg.patch(img, f["inode[short].blockword0"][0], 4, 16 | (1 << 24))
+    o = f["frag[0]"][0]
+    img = sqfsimg.patch(img, o + 8, 4, 16 | (1 << 24))
+    path = os.path.join(work, "hostile.sqfs")
+    with open(path, "wb") as fh:
+        fh.write(img)
+    return path
+
+
 def run_kind(arg):
     kind, seeds, tier, comp = arg
     oc = core.Outcome("%s/%s" % (kind, comp), features=(kind, comp))
@@ -42,7 +61,12 @@ def run_kind(arg):
                                   extra_cflags=["-I" + os.path.join(core.REPO, "include")])
         with core.Scratch("c19") as work:
             img = make_image(B, work, comp)
-            for seed in seeds:
+            runs = [(seed, img) for seed in seeds]
+            if kind == "data":
+                hi = hostile_data_image(work)
+                runs += [(seed, hi) for seed in seeds]
+                oc.inc("hostile_image_histories", len(seeds) * 2)
+            for seed, img in runs:
                 for order in (0, 1):
                     args = [exe, kind, str(seed), str(order), img, work] + (["cc"] if seed % 3 == 0 else ["failcopy"] if seed % 3 == 1 else [])
                     res = core.run_tool(args, timeout=120, binary="copy_hist",
